@@ -374,6 +374,11 @@ class _Case:
             self.finding("reference-build-" + ref.status, f"the uninterrupted build ended with status {ref.status}",
                          error=(ref.error or "")[-1500:])
             return
+        if not ref.ok:
+            # DESIGN 9/C05: the comparison is with an uninterrupted *successful* run (a build that ends
+            # PENDING or FAILED skips the cleanup and its leftovers depend on the schedule)
+            self.count("case-skipped:uninterrupted-build-not-successful")
+            return
         self.ref = ref
         self.sources = sources
         # the uninterrupted build under other schedules: a history whose result depends on the schedule
